@@ -393,6 +393,13 @@ edit("http-address-blankhost", "preserving", False, ["core", "notify", "kafka"],
      "core/internal/helpers/validation.go:127-130", "listener address with blank host")
 edit("http-second-listener", "preserving", False, ["core", "notify", "kafka"], [("s", "httpserver.h3.address", "localhost:0")],
      "core/internal/httpserver/coordinator.go:72-118", "an additional listener")
+edit("http-second-listener-bad", "address", True, ["core", "notify", "kafka"],
+     [("s", "httpserver.h1.address", "127.0.0.1:0"), ("s", "httpserver.h3.address", "127.0.0.1")],
+     "core/internal/httpserver/coordinator.go:72-81",
+     "two listeners, one of them with an address without a port (the other one must not be left bound)")
+edit("http-third-listener-bad", "address", True, ["core", "notify", "kafka"],
+     [("s", "httpserver.h1.address", "127.0.0.1:0"), ("s", "httpserver.h3.address", "localhost:0"), ("s", "httpserver.h4.address", "-bad-:8000")],
+     "core/internal/httpserver/coordinator.go:72-81", "three listeners, one of them with an invalid host name")
 edit("http-tls-unknown-profile", "tls", True, ["core", "notify", "kafka"],
      [("s", "httpserver.h1.address", "127.0.0.1:0"), ("s", "httpserver.h1.tls", "nosuch")],
      "core/internal/httpserver/coordinator.go:92-112", "listener names a TLS profile that does not exist (no certificate/key)")
